@@ -175,8 +175,10 @@ class Run:
         if z3.is_true(g):
             self.engine.trivial += 1
             return
-        self.obligations.append(Obligation(name, kind, self.assumptions(), goal, self.cur_func, self.cur_line,
-                                           tuple(self.decisions[: self.pos]), dict(self.inputs), meta or {}))
+        ob = Obligation(name, kind, self.assumptions(), goal, self.cur_func, self.cur_line,
+                        tuple(self.decisions[: self.pos]), dict(self.inputs), meta or {})
+        ob.core = list(self.engine.global_facts) + list(self.defs)     # facts that do not depend on the path
+        self.obligations.append(ob)
         if assume_after:
             if z3.is_false(g):
                 raise PathEnd()
@@ -458,8 +460,12 @@ class Engine:
     def st_Try(self, run, st, fr):
         if st.finalbody:
             raise Undecided("try/finally")
+        run.try_depth = getattr(run, "try_depth", 0) + 1
         try:
-            self.exec_block(run, st.body, fr)
+            try:
+                self.exec_block(run, st.body, fr)
+            finally:
+                run.try_depth -= 1
         except SymRaise as e:
             for h in st.handlers:
                 if self.handler_matches(run, h, e.exc, fr):
